@@ -472,3 +472,36 @@ Definition shp_spec_ok (c : shpcase) : bool :=
 Definition shp_mismatches (p : profile_prog) (cols : list (string * kop)) (cs : list shpcase) : list Z :=
   map shp_id (filter (shp_mismatch p cols) cs).
 Definition shp_spec_violations (cs : list shpcase) : list Z := map shp_id (filter (fun c => negb (shp_spec_ok c)) cs).
+
+(* ------------------------------------------------------------------------------------------ *)
+(** * 5. The gzip layer of a pprof body (fix 5) *)
+
+(* golangPprof.go Parse (both /ingest routes): a body that begins with the gzip magic is inflated HERE -- gzip.NewReader, the
+   limiter of model/IngestFraming.v, io.ReadAll -- and what comes out must not begin with the magic again, so the profile
+   parser below (google/pprof ParseData, which inflates a gzip stream without any bound) never inflates anything *)
+Definition pprof_parse_guard_model : list string := [
+  "if b := data.Bytes(); len(b) >= 2 && b[0] == 0x1f && b[1] == 0x8b";
+  "gz, err := gzip.NewReader(data)";
+  "if err != nil { return nil, err }";
+  "inflated, err := io.ReadAll(helpers.LimitDecoded(gz))";
+  "if err != nil { return nil, err }";
+  "if len(inflated) >= 2 && inflated[0] == 0x1f && inflated[1] == 0x8b { return nil, fmt.Errorf(""profile is compressed twice"") }";
+  "data = bytes.NewBuffer(inflated)"].
+Fixpoint strs_eqb' (a b : list string) : bool :=
+  match a, b with [] , [] => true | x :: r, y :: s => String.eqb x y && strs_eqb' r s | _, _ => false end.
+
+(* layers: the sizes the successive gzip layers of the body inflate to (outermost first; [] = not gzip at all).
+   What the profile parser is handed, and the bytes inflated on the way: before the fix the parser inflated one layer whole *)
+Inductive pprof_in := PpRefused | PpParsed (bytes : Z).
+Definition pprof_guard (limit : Z) (wire : Z) (layers : list Z) : pprof_in * Z :=
+  match layers with
+  | [] => (PpParsed wire, 0%Z)
+  | n :: rest =>
+      if (limit <? n)%Z then (PpRefused, limit)                 (* the limiter: 400 after `limit` inflated bytes *)
+      else match rest with
+           | [] => (PpParsed n, n)
+           | _ => (PpRefused, n)                                 (* still gzip: compressed twice *)
+           end
+  end.
+Definition pprof_guard_orig (wire : Z) (layers : list Z) : pprof_in * Z :=
+  match layers with [] => (PpParsed wire, 0%Z) | n :: _ => (PpParsed n, n) end.
